@@ -22,7 +22,7 @@ def _registry(verif):
         return json.load(f)['modules']
 
 
-def run_module(mod, repo, verif, timeout=900):
+def run_module(mod, repo, verif, timeout=3000):
     """append the test module to its target file in a scratch copy and run it.
     returns (ran: bool, failures: [(test, message)], log_tail)"""
     scratch = tempfile.mkdtemp(prefix='verif-replay-')
